@@ -754,7 +754,7 @@ def systematic():
     grow = ["AR %s %s 2 1 %s 5 %s" % (d(0), d(3), d(1), d(2)), "ARS 1 %s %s 1 4 %s" % (d(0), d(3), d(1)),
             "AC %s %s %s 2 0 %s 6 %s" % (d(1), d(0), d(2), d(1), d(-2)), "ACS 1 %s %s %s 1 4 %s" % (d(1), d(0), d(2), d(1))]
     cases = []
-    for st in ((0, 0, 0, 0, 1), (2, 1, 1, 0, 1), (3, 0, 3, 2, -1), (6, 1, 0, 1, -1)):
+    for st in ((0, 0, 0, 0, 1), (2, 1, 1, 0, 1), (3, 0, 3, 2, -1), (6, 1, 0, 1, -1), (0, 0, 0, 2, 1), (0, 0, 0, 2, -1), (0, 0, 0, 1, -1)):
         sd = dict(zip(("scaler", "persist", "simplifier", "rep", "sense"), st))
         for pre in ([], ["OPT"]):
             for o in ops + (grow if not (pre and st[1] == 1 and st[0] != 0) else []):
